@@ -1,5 +1,6 @@
 import WzVerif.Driver.Proto
 import WzVerif.Model.LimitedStream
+import WzVerif.Driver.PyPrelude
 namespace Wz.Driver.C09
 open Wz Wz.Proto Wz.LS
 
@@ -60,6 +61,6 @@ def handle : Handler
     match optArg unhexStr cl, boolArg chunked with
     | some cl, some chunked => some (outOpt toString (getContentLength cl chunked))
     | _, _ => some badArgs
-  | _, _ => none
+  | cmd, args => Wz.Driver.PyPrelude.handle cmd args  -- `pre.*`: primitives of Util/PyPrelude
 
 end Wz.Driver.C09
